@@ -499,6 +499,50 @@ Proof.
   destruct (auto_write_covers root t p cwd Hr H) as (rel & _ & Et & Er & Ek). exists t, rel. repeat split; assumption.
 Qed.
 
+(* ---------- the generated step lists (T1) ---------- *)
+Lemma interp_tool root raw : interp [1; 2; 3] root raw = resolve_tool root raw.
+Proof. reflexivity. Qed.
+Lemma interp_parse root raw : interp [4; 5; 1; 2; 6] root raw = parse_rel_path raw.
+Proof. unfold parse_rel_path. cbn [interp]. destruct (trim raw); reflexivity. Qed.
+Lemma interp_to_relative root raw : interp [7; 8; 2; 6] root raw = to_relative root raw.
+Proof. unfold to_relative. cbn [interp]. destruct (strip_prefix root _); reflexivity. Qed.
+Lemma interp_auto_write root raw : interp [1; 2; 6] root raw = auto_write_paths raw.
+Proof. reflexivity. Qed.
+
+Lemma list_eqb_idl a b : list_eqb idl_eqb a b = true -> a = b.
+Proof.
+  apply list_eqb_spec. intros [i s] [j t]. unfold idl_eqb. cbn [fst snd]. rewrite andb_true_iff, N.eqb_eq.
+  split.
+  - intros [-> H]. f_equal. apply (list_eqb_spec N.eqb); [intros; apply N.eqb_eq|exact H].
+  - intros E; inversion E; subst. split; [reflexivity|]. apply (list_eqb_spec N.eqb); [intros; apply N.eqb_eq|reflexivity].
+Qed.
+
+Lemma wf_steps found st ord : resolvers_wf found st ord = true -> st = expected_steps.
+Proof.
+  unfold resolvers_wf. intros H. apply andb_true_iff in H. destruct H as [H _]. apply andb_true_iff in H.
+  destruct H as [_ H]. apply list_eqb_idl. exact H.
+Qed.
+
+(* every source whose extracted step lists are well-formed has sound resolvers *)
+Theorem generated_resolvers_sound found st ord : resolvers_wf found st ord = true ->
+  forall root raw p cwd,
+    (interp (steps_of st 1) root raw = Ok p \/ interp (steps_of st 2) root raw = Ok p \/ interp (steps_of st 3) root raw = Ok p ->
+       kresolve cwd p = kresolve cwd root ++ real_segs raw)
+    /\ (interp (steps_of st 4) root raw = Ok p -> resolve_tool root p = Ok (join root p) /\ p = trim raw)
+    /\ (interp (steps_of st 5) root raw = Ok p ->
+          resolve_tool root p = Ok (restore_path root p) /\ kresolve cwd (restore_path root p) = kresolve cwd root ++ real_segs p)
+    /\ (forall e, resolve_tool root raw = Err e -> interp (steps_of st 6) root raw = Err e).
+Proof.
+  intros H root raw p cwd. rewrite (wf_steps _ _ _ H). cbn [steps_of expected_steps N.eqb Pos.eqb].
+  rewrite interp_tool, interp_parse, interp_to_relative, interp_auto_write. repeat split.
+  - intros [E|[E|E]]; eapply resolver_sound; exact E.
+  - destruct (parse_rel_path_ok _ _ H0) as (_ & _ & Ha & Hp). apply resolver_accepts; assumption.
+  - destruct (parse_rel_path_ok _ _ H0) as (E & _). exact E.
+  - apply (proj1 (to_relative_sound _ _ _ cwd H0)).
+  - apply (proj2 (to_relative_sound _ _ _ cwd H0)).
+  - intros e He. eapply auto_write_refused_before_store; exact He.
+Qed.
+
 (* ---------- the behaviour before the repairs (S10), refuted on named witnesses ---------- *)
 Definition w_root : str := bs "/r/ws"%string.
 Definition w_up : str := bs "../outside.txt"%string.
